@@ -21,11 +21,20 @@ for mod,structs in by.items():
         tagged=[f for f in fs if f['tag'] is not None]
         reqt=[f['tag'] for f in tagged if not (f['type'].startswith('Option<') or f['type'].startswith('Vec<'))]
         req=('set![' + ', '.join('%du16' % x for x in reqt) + ']') if reqt else 'Set::<u16>::empty()'
+        nonvec=[f['tag'] for f in tagged if not f['type'].startswith('Vec<')]
+        stop='rest.len() == 0 || (match <zvt_builder::encoding::Default as zvt_builder::encoding::Encoding<zvt_builder::Tag>>::spec_dec(rest) { None => true, Some((t, _)) => ' + (' && '.join('t.0 != %du16' % x for x in nonvec) or 'true') + ' })'
+        def vec_hint(f):
+            if not f['type'].startswith('Vec<'): return ''
+            return f"""            let ghost b_pre = bytes@;
+        //@ after ({f['name']},bytes)=<
+        //@ tag tags.stop C13
+            proof {{ if curr_len == bytes@.len() {{ crate::frame::lemma_tail_same_len(bytes@, b_pre); }} }}
+"""
         reqasserts=''.join('assert(!%s.difference(seen).contains(%du16)); ' % (req, x) for x in reqt)
         arms=''.join(f"""        //@ before ({f['name']},bytes)=<
         //@ tag tags.no_second_dispatch.{f['name']} C13
             proof {{ assert(!seen.contains({f['tag']}u16)); seen = seen.insert({f['tag']}u16) ; }}
-        //@ before returnErr(zvt_builder::ZVTError::DuplicateTag(zvt_builder::Tag({f['tag']}u16)
+{vec_hint(f)}        //@ before returnErr(zvt_builder::ZVTError::DuplicateTag(zvt_builder::Tag({f['tag']}u16)
         //@ tag tags.duplicate_error_is_true.{f['name']} C13
             proof {{ assert(seen.contains({f['tag']}u16)) ; }}
 """ for f in tagged)
@@ -42,6 +51,9 @@ for mod,structs in by.items():
         open spec fn self_delimiting() -> bool {{ false }}
         open spec fn dec_rel(b: Seq<u8>, v: &{n}, k: int) -> bool {{ true }}
         open spec fn dec_total() -> bool {{ false }}
+        /// the tag loop stops only at the end of the input, in front of something that is no tag, or in front of a tag that
+        /// is not one of this struct's non-repeatable fields
+        open spec fn dec_stop(rest: Seq<u8>) -> bool {{ {stop} }}
         /// the tag loop is specified by totality and frame clauses only
         open spec fn functional() -> bool {{ false }}
         //@ fn exp:zvt | impl zvt_builder::encoding::Encoding<{n}> for zvt_builder::encoding::Default | encode | mod={mod} props=C03
@@ -54,6 +66,10 @@ for mod,structs in by.items():
         //@ tag tags.bookkeeping C13
                     actual_tags@ =~= seen,
                     required_tags@ =~= {req}.difference(seen),
+        //@ tag tags.stop C13
+                    curr_len == bytes@.len() ==> <zvt_builder::encoding::Default as zvt_builder::encoding::Encoding<{n}>>::dec_stop(bytes@),
+                ensures
+                    <zvt_builder::encoding::Default as zvt_builder::encoding::Encoding<{n}>>::dec_stop(bytes@),
         //@ tag tags.loop.decreases C02
                 decreases bytes@.len() + (if curr_len != bytes@.len() {{ 1nat }} else {{ 0nat }}),
         //@ entry
